@@ -18,8 +18,7 @@ def _full_overwrite(self, stmts, i, st):
     a, b = stmts[i], stmts[i + 1]
     for x in (a, b):
         if not (isinstance(x, ast.Assign) and len(x.targets) == 1 and isinstance(x.targets[0], ast.Subscript)
-                and isinstance(x.targets[0].value, ast.Name) and isinstance(x.targets[0].slice, ast.Slice)
-                and x.targets[0].slice.step is None):
+                and isinstance(x.targets[0].value, ast.Name) and isinstance(x.targets[0].slice, (ast.Slice, ast.Name))):
             return None
     ta, tb = a.targets[0], b.targets[0]
     if ta.value.id != tb.value.id:
@@ -28,20 +27,26 @@ def _full_overwrite(self, stmts, i, st):
     arr = st.env.get(name)
     if not isinstance(arr, Num) or arr.shape is None or len(arr.shape) != 1 or arr.shape[0] is None:
         return None
-    sa, sb = ta.slice, tb.slice
-    lo_ok = sa.lower is None or (isinstance(sa.lower, ast.Constant) and sa.lower.value == 0)
-    if not lo_ok or sa.upper is None or sb.lower is None:
+    # the two slices by value (literal `lo:hi` or a name bound to slice(lo, hi)): [0, a) then [a, len)
+    try:
+        sa, sb = self.eval(ta.slice, st), self.eval(tb.slice, st)
+    except PathEnd:
         return None
-    if ast.dump(sa.upper) != ast.dump(sb.lower):
+    if not isinstance(sa, SliceV) or not isinstance(sb, SliceV) or sa.step is not None or sb.step is not None:
         return None
-    if sb.upper is not None:
-        try:
-            hi = self.eval(sb.upper, st)
-        except PathEnd:
+
+    def bound(v):
+        if v is None:
             return None
-        ih = _asint(hi)
-        if ih is None or ih.a is None or ih.a != arr.shape[0]:
-            return None
+        iv = _asint(v)
+        return iv.a if (iv is not None and iv.a is not None) else False
+    la, ha, lb, hb = bound(sa.lo), bound(sa.hi), bound(sb.lo), bound(sb.hi)
+    if False in (la, ha, lb, hb):
+        return None
+    if not (la is None or la == Aff(0)) or ha is None or lb is None or not (ha == lb):
+        return None
+    if hb is not None and hb != arr.shape[0]:
+        return None
     # the right-hand sides must not read the buffer
     for x in (a, b):
         if any(isinstance(n, ast.Name) and n.id == name for n in ast.walk(x.value)):
@@ -774,17 +779,53 @@ def iter_elem(self, it, node, loopnode=None):
         return IntV(Aff.sym(sym) if sym else None, t), n
     if isinstance(it, Opaque) and it.what == 'enumerate':
         inner = it.args[0]
-        if isinstance(inner, Opaque) and inner.what == 'range' and inner.args[0] is not None and inner.args[2] == 1 and loopnode is not None:
-            # enumerate(range(lo, hi)): the element keeps its loop symbol k, the counter is k - lo
+        if isinstance(inner, Opaque) and inner.what == 'range' and inner.args[0] is not None and inner.args[2] in (1, -1) and loopnode is not None:
+            # enumerate(range(lo, hi[, -1])): the element keeps its loop symbol k, the counter is k - lo (lo - k when descending)
             fake = ast.copy_location(ast.For(target=ast.Name(id='k', ctx=ast.Store()), iter=ast.Constant(0), body=[], orelse=[]), loopnode)
             el, n = self.iter_elem(inner, node, fake)
             if isinstance(el, IntV) and el.a is not None:
-                return Tup([IntV(el.a - inner.args[0], el.taint), el]), n
+                cnt = (el.a - inner.args[0]) if inner.args[2] == 1 else (inner.args[0] - el.a)
+                return Tup([IntV(cnt, el.taint), el]), n
+        if loopnode is not None and isinstance(inner, Num) and inner.shape is not None and len(inner.shape) == 1 and inner.shape[0] is not None \
+                and len(it.args) == 1:
+            # enumerate(array): counter and element move in lock step -- element = array[counter]
+            key = (self.cur.qname if self.cur else '', getattr(loopnode, 'lineno', 0), getattr(loopnode, 'col_offset', 0), 'enum')
+            sym = self.loopsyms.setdefault(key, 'pos@%s:%d' % ((self.cur.name if self.cur else ''), key[1]))
+            Aff.SYM_MIN[sym] = 0
+            Aff.BOUNDS[sym] = (Aff(0), inner.shape[0])
+            pos = IntV(Aff.sym(sym), frozenset())
+            return Tup([pos, self.index_value(inner, pos, node)]), inner.shape[0]
         el, n = self.iter_elem(it.args[0], node, None)
         Aff.SYM_MIN['enum#'] = 0
         return Tup([IntV(Aff.sym('enum#')), el]), n
     if isinstance(it, Opaque) and it.what == 'zip':
         els = [self.iter_elem(a, node, None) for a in it.args]
+        lens = [n_ for _e, n_ in els if n_ is not None]
+        psyms = set(getattr(a, 'possym', None) for a in it.args if isinstance(a, SeqV))
+        if loopnode is not None and lens and len(psyms) <= 1 and None not in psyms and all(
+                (isinstance(a, Num) and a.shape is not None and len(a.shape) == 1) or isinstance(a, SeqV) or
+                (isinstance(a, Opaque) and a.what == 'range' and a.args[0] is not None and a.args[2] is not None) for a in it.args):
+            # lock-step iteration: one position symbol shared by every argument -- zip(a[K:], a[:n-K], range(m, -m, -2)) is the
+            # indexed loop `for i in range(n): a[K+i], a[i], m - 2*i`; a sequence produced by map() brings its own position symbol
+            key = (self.cur.qname if self.cur else '', getattr(loopnode, 'lineno', 0), getattr(loopnode, 'col_offset', 0), 'zip')
+            sym = list(psyms)[0] if psyms else self.loopsyms.setdefault(key, 'pos@%s:%d' % ((self.cur.name if self.cur else ''), key[1]))
+            Aff.SYM_MIN[sym] = 0
+            nmin = lens[0]
+            for l_ in lens[1:]:
+                m_ = aff_min(nmin, l_)
+                nmin = m_ if m_ is not None else nmin
+            Aff.BOUNDS[sym] = (Aff(0), nmin)
+            pos = IntV(Aff.sym(sym), frozenset())
+            items = []
+            for a in it.args:
+                if isinstance(a, Num):
+                    items.append(self.index_value(a, pos, node))
+                elif isinstance(a, SeqV):
+                    items.append(a.elem)
+                else:
+                    lo_, _hi, st_ = a.args
+                    items.append(IntV(lo_ + Aff.sym(sym).scale(st_), a.taint if self.loop_taint else frozenset()))
+            return Tup(items), nmin
         return Tup([e for e, _n in els]), (els[0][1] if els else None)
     if isinstance(it, Num):
         if it.shape is None:
@@ -921,15 +962,81 @@ def _covering_targets(self, s, st, lo, hi):
     return out
 
 
+def _enumerate_range_loop(s):
+    """`for j, e in enumerate(range(A, B))` / `enumerate(reversed(range(A, B)))` (A defaults to 0, no step, plain names as
+    targets, A and B not re-bound in the body)  ==  `for j in range(0, B - A): e = A + j  (or B - 1 - j); body`"""
+    it, tg = s.iter, s.target
+    if s.orelse or not (isinstance(tg, (ast.Tuple, ast.List)) and len(tg.elts) == 2 and all(isinstance(e_, ast.Name) for e_ in tg.elts)):
+        return None
+    if not (isinstance(it, ast.Call) and isinstance(it.func, ast.Name) and it.func.id == 'enumerate' and len(it.args) == 1 and not it.keywords):
+        return None
+    x = it.args[0]
+    rev = False
+    if isinstance(x, ast.Call) and isinstance(x.func, ast.Name) and x.func.id == 'reversed' and len(x.args) == 1 and not x.keywords:
+        rev, x = True, x.args[0]
+    if not (isinstance(x, ast.Call) and isinstance(x.func, ast.Name) and x.func.id == 'range' and len(x.args) in (1, 2) and not x.keywords):
+        return None
+    A = x.args[0] if len(x.args) == 2 else ast.Constant(0)
+    B = x.args[-1]
+    used = {n_.id for e_ in (A, B) for n_ in ast.walk(e_) if isinstance(n_, ast.Name)}
+    bound = {n_.id for b_ in s.body for n_ in ast.walk(b_) if isinstance(n_, ast.Name) and isinstance(n_.ctx, ast.Store)}
+    if (used & bound) or any(isinstance(n_, ast.Call) for e_ in (A, B) for n_ in ast.walk(e_)):
+        return None
+    j, e = tg.elts[0].id, tg.elts[1].id
+    if j in used or e in used:
+        return None
+    jl = ast.Name(id=j, ctx=ast.Load())
+    if rev:
+        val = ast.BinOp(left=ast.BinOp(left=B, op=ast.Sub(), right=ast.Constant(1)), op=ast.Sub(), right=jl)
+    else:
+        val = ast.BinOp(left=A, op=ast.Add(), right=jl)
+    first = ast.Assign(targets=[ast.Name(id=e, ctx=ast.Store())], value=val)
+    cnt = B if (isinstance(A, ast.Constant) and A.value == 0) else ast.BinOp(left=B, op=ast.Sub(), right=A)
+    loop = ast.For(target=ast.Name(id=j, ctx=ast.Store()),
+                   iter=ast.Call(func=ast.Name(id='range', ctx=ast.Load()), args=[ast.Constant(0), cnt], keywords=[]),
+                   body=[first] + list(s.body), orelse=[])
+    ast.copy_location(loop, s)
+    ast.copy_location(first, s)
+    ast.fix_missing_locations(loop)
+    return loop
+
+
 def s_For(self, s, st, frame):
+    cache_e = self.__dict__.setdefault('_enum_loops', {})
+    if id(s) not in cache_e:
+        cache_e[id(s)] = _enumerate_range_loop(s)
+    if cache_e[id(s)] is not None and isinstance(self.eval(ast.Name(id='enumerate', ctx=ast.Load()), st), ExtV):
+        return self.s_For(cache_e[id(s)], st, frame)
+    if isinstance(s.iter, ast.Call) and isinstance(s.target, (ast.Tuple, ast.List)) and not s.orelse and not s.iter.keywords \
+            and len(s.iter.args) == len(s.target.elts) >= 2 and not any(isinstance(a_, ast.Starred) for a_ in s.iter.args):
+        fv = None
+        try:
+            fv = self.eval(s.iter.func, st)
+        except PathEnd:
+            fv = None
+        if isinstance(fv, ExtV) and fv.dotted == 'itertools.product' and \
+                not any(isinstance(x_, (ast.Break, ast.Continue)) for b_ in s.body for x_ in ast.walk(b_)):
+            # for a, b in product(A, B): body   ==   for a in A: for b in B: body
+            cache = self.__dict__.setdefault('_product_loops', {})
+            outer = cache.get(id(s))
+            if outer is None:
+                body = s.body
+                for lvl, (tgt, itr) in reversed(list(enumerate(zip(s.target.elts, s.iter.args)))):
+                    loop = ast.For(target=tgt, iter=itr, body=body, orelse=[])
+                    ast.copy_location(loop, s)
+                    loop.col_offset = getattr(s, 'col_offset', 0) + 1000 * lvl        # one loop symbol per level
+                    body = [loop]
+                outer = body[0]
+                cache[id(s)] = outer
+            return self.s_For(outer, st, frame)
     it = self.eval(s.iter, st)
     # a loop over a literal / fully known short sequence runs exactly once per element: unroll it
     items = None
-    if isinstance(it, Const) and isinstance(it.v, (list, tuple)) and len(it.v) <= 8:
-        items = [x if isinstance(x, Val) else Const(x, it.taint) for x in it.v]
+    if isinstance(it, Const) and isinstance(it.v, (list, tuple)) and len(it.v) <= (8 if frame.loops else 24):
+        items = [x if isinstance(x, Val) else Const(x, it.taint) for x in it.v]     # literal tables: one pass per row
     elif isinstance(it, Const) and isinstance(it.v, dict) and len(it.v) <= 8:
         items = [Const(k_, it.taint) for k_ in it.v.keys()]        # iterating a dict visits its keys
-    elif isinstance(it, Tup) and len(it.items) <= 8 and not frame.loops:
+    elif isinstance(it, Tup) and len(it.items) <= 24 and not frame.loops:
         items = list(it.items)
     elif getattr(self, 'unroll', False) and isinstance(it, Opaque) and it.what == 'range':
         # bounded instance analysis: a range with concrete bounds and a short trip count is executed iteration by iteration
